@@ -64,6 +64,8 @@ let mk_response (code : int) (variant : string) : response =
   | "ct" -> hdr "content-type" "x/y" (resp_text !plain c (bytes_of_string "hi"))
   | "te" -> hdr "transfer-encoding" "chunked" (resp_new c)
   | "h" -> hdr "x-a" "b c" (resp_new c)
+  | "fm" -> { (resp_new c) with r_body = BKnown (n_of_int 10, false, { r_data = []; r_sched = [] }) }
+  | "fs" -> { (resp_new c) with r_body = BKnown (n_of_int 10, true, { r_data = bytes_of_string "abc"; r_sched = [] }) }
   | _ -> failwith "bad variant"
 
 let rec parse_ops (toks : string list) : response cop list = match toks with
